@@ -89,12 +89,12 @@ let run (op_full : string) (a : string array) : string =
   | "concat" -> show_buf prefix (concat_w (unhex a.(0)) (unhex a.(1)) prefix)
   | "delete_by_name" -> show_buf prefix (delete_by_name_w (unhex a.(0)) (unhex a.(1)) prefix)
   | "delete_by_index" -> show_buf prefix (delete_by_index_w (unhex a.(0)) (z_of_zt (ZA.of_string a.(1))) prefix)
-  | "delete_by_keypath" -> show_buf prefix (delete_by_keypath_m (unhex a.(0)) (parse_keypaths a.(1)) prefix)
+  | "delete_by_keypath" -> show_buf prefix (delete_by_keypath_w (unhex a.(0)) (parse_keypaths a.(1)) prefix)
   | "array_insert" -> show_buf prefix (array_insert_w (unhex a.(0)) (z_of_zt (ZA.of_string a.(1))) (unhex a.(2)) prefix)
-  | "object_insert" -> show_buf prefix (object_insert_m (unhex a.(0)) (unhex a.(1)) (unhex a.(2)) (a.(3) = "1") prefix)
-  | "object_delete" -> show_buf prefix (object_delete_m (unhex a.(0)) (hexlist a.(1)) prefix)
-  | "object_pick" -> show_buf prefix (object_pick_m (unhex a.(0)) (hexlist a.(1)) prefix)
-  | "strip_nulls" -> show_buf prefix (strip_nulls_m (unhex a.(0)) prefix)
+  | "object_insert" -> show_buf prefix (object_insert_w (unhex a.(0)) (unhex a.(1)) (unhex a.(2)) (a.(3) = "1") prefix)
+  | "object_delete" -> show_buf prefix (object_delete_w (unhex a.(0)) (hexlist a.(1)) prefix)
+  | "object_pick" -> show_buf prefix (object_pick_w (unhex a.(0)) (hexlist a.(1)) prefix)
+  | "strip_nulls" -> show_buf prefix (strip_nulls_w (unhex a.(0)) prefix)
   | "build_array" -> show_buf_st (build_array_st (hexlist a.(0)) prefix)
   | "build_object" -> show_buf_st (build_object_st (hexlist a.(0)) (hexlist a.(1)) prefix)
   | "select" -> show_sel prefix (select_w (unhex a.(0)) (parse_jsonpath a.(1)) (mode_of a.(2)) prefix)
